@@ -1,6 +1,7 @@
 import AggkitModel.Model.Certificate
 import AggkitModel.Proofs.Bytes
 import AggkitModel.Properties.C02
+import AggkitModel.Generated.CertFacts
 /-
 C03 — a built certificate's new exit root follows from its bridge exits (byte level; the protocol-level half —
 which exits, which roots — is `C03_root` over the certificate machine, below).
@@ -137,5 +138,11 @@ theorem C03_root (s : Sys) (h : ChainOK s) (c : ACert) (hc : c ∈ s.agg) :
   rw [hsp, List.map_append, hpre, ← hp, hlen, ← hb, List.range_eq_range', List.range_eq_range',
     ← List.range'_append_1, Nat.zero_add] at hall
   exact List.append_cancel_left hall
+
+
+/-- the start exit root the node falls back to is the root of the empty 32-level tree (the constant is compared with the
+    independently computed root table by the harness; here: it is the value the model's `prev = 0` stands for) -/
+theorem C03_code_facts :
+    Gen.CertFacts.emptyLER = "0x27ae5ba08d7291c96c8cbddcc148bf48a6d68c7974b94356f53754ef6171d757" := by decide
 
 end Aggkit.Aggsender
